@@ -357,6 +357,10 @@ func c14ParseText(format, text string) (any, error) {
 		if err := d.Decode(&v); err != nil {
 			return nil, err
 		}
+		if d.More() {
+			// exactly one document is expected wherever this is used: a second one is not "the same output"
+			return nil, fmt.Errorf("more than one JSON document in the output")
+		}
 		return c14Norm(v), nil
 	}
 	return nil, fmt.Errorf("no parser for %s", format)
